@@ -39,10 +39,16 @@ const (
 	mutDupTail
 	mutAlterTx
 	mutAlterSig
+	// invalid only because of a duplicate, otherwise consistently executed (own
+	// header, own hash): a transaction of the block twice, or one of an ancestor
+	mutDupFirstConsistent
+	mutDupLastConsistent
+	mutReplayAncestorConsistent
 	mutLast
 )
 
 var mutNames = map[int]string{mutTxHash: "txhash", mutStateHash: "statehash", mutHeight: "height", mutParent: "parent",
+	mutDupFirstConsistent: "consistent-dup-first", mutDupLastConsistent: "consistent-dup-last", mutReplayAncestorConsistent: "consistent-replay-ancestor",
 	mutDropTx: "drop-tx", mutAddTx: "add-tx", mutSwapTx: "swap-tx", mutDupTail: "dup-tail", mutAlterTx: "alter-tx", mutAlterSig: "alter-sig"}
 
 // tamper returns a corrupted copy of blk, or nil when the corruption does not
@@ -179,6 +185,7 @@ func (tamperEngine) run(ctx *simrt.Ctx) *simrt.Violation {
 	// copyFirst[id] = how a same-header/different-body copy of block id reached the
 	// node before the genuine block did ("orphan", "side" or "tip" + corruption kind)
 	copyFirst := map[int]string{}
+	rawID := 500000
 	saw := map[string]bool{}
 	open := sc.Knob("open", 0) == 1
 	byHash := map[string]*Built{}
@@ -226,7 +233,46 @@ func (tamperEngine) run(ctx *simrt.Ctx) *simrt.Violation {
 				ctx.Logf("dlv genuine id=%d h=%d ok=%v %s -> height %d", b.ID, b.Height, ok, msg, sut.Chain.GetBlockHeight())
 				delivered[b.ID] = true
 			} else {
-				bad := tamper(w, b.Block, kind, op.Int(4))
+				var bad *types.Block
+				if kind >= mutDupFirstConsistent {
+					// only meaningful as an extension of the current tip: it is then
+					// executed at once and must be refused for the duplicate alone
+					if !bytes.Equal(lastHash(sut), b.Block.ParentHash) {
+						continue
+					}
+					txs := append([]*types.Transaction(nil), b.Block.Txs...)
+					switch kind {
+					case mutDupFirstConsistent:
+						txs = append(txs, txs[0])
+					case mutDupLastConsistent:
+						txs = append(txs, txs[len(txs)-1])
+					default:
+						if b.Up == nil {
+							continue
+						}
+						anc := b.Up.Chain()
+						a := anc[int(op.Int(4))%len(anc)]
+						txs = append(txs, a.Block.Txs[int(op.Int(4))%len(a.Block.Txs)])
+					}
+					rawID++
+					rb := w.BuildRaw(rawID, b.Parent, 0, b.Block.BlockTime-parentTime(w, b), txs)
+					if rb == nil {
+						continue
+					}
+					if len(rb.Block.Txs) != len(txs) {
+						// the block producer's own duplicate filter removed the copy: what
+						// was built is an ordinary valid block, not a corrupted one
+						delete(w.Blocks, rawID)
+						w.Order = w.Order[:len(w.Order)-1]
+						ctx.Probe("consistent_dup_removed_by_producer")
+						continue
+					}
+					delete(w.Blocks, rawID) // not a block of the valid tree
+					w.Order = w.Order[:len(w.Order)-1]
+					bad = rb.Block
+				} else {
+					bad = tamper(w, b.Block, kind, op.Int(4))
+				}
 				if bad == nil {
 					continue
 				}
@@ -237,7 +283,7 @@ func (tamperEngine) run(ctx *simrt.Ctx) *simrt.Violation {
 				} else {
 					ctx.Probe("tampered_before_genuine")
 				}
-				sameHeader := kind >= mutDropTx
+				sameHeader := kind >= mutDropTx && kind < mutDupFirstConsistent
 				parentConnected := b.Up == nil || isConnected(sut, b.Up)
 				extendsTip := bytes.Equal(lastHash(sut), b.Block.ParentHash)
 				heavier := false
@@ -299,7 +345,9 @@ func (tamperEngine) run(ctx *simrt.Ctx) *simrt.Violation {
 					}
 					copyFirst[b.ID] = path + "/" + mutNames[kind]
 				}
-				failedReorgShape := shape == "K3" || (shape == "K1" && parentConnected && !extendsTip && heavier)
+				// (for a same-header copy on a side branch the extra weight may come from
+				// valid descendants already waiting in the orphan pool)
+				failedReorgShape := shape == "K3" || (shape == "K1" && parentConnected && !extendsTip)
 				beforeTip, beforeKeys := snapshot(sut)
 				ok, msg := Deliver(sut, bad, int(op.Int(1)), pid)
 				ctx.Logf("dlv TAMPERED(%s) id=%d h=%d ok=%v %s -> height %d", mutNames[kind], b.ID, b.Height, ok, msg, sut.Chain.GetBlockHeight())
@@ -380,4 +428,11 @@ func isConnected(n *simnode.Node, b *Built) bool {
 		}
 	}
 	return false
+}
+
+func parentTime(w *World, b *Built) int64 {
+	if b.Up != nil {
+		return b.Up.Block.BlockTime
+	}
+	return w.Genesis.BlockTime
 }
